@@ -378,7 +378,9 @@ pub fn eval_function(
         }
         Function::Clamp => {
             let (x, min, max) = args.number_triple()?;
-            if min > max {
+            // (written this way round so that a NaN bound is rejected too;
+            // f32::clamp panics on those)
+            if !(min <= max) {
                 return Err(SvgdxError::InvalidData(
                     "clamp(x, min, max) - `min` must be <= `max`".to_string(),
                 ));
